@@ -193,18 +193,21 @@ def bubble (lt : Nat → Nat → Bool) (x : Nat) : List Nat → List Nat
 def insertionSort (lt : Nat → Nat → Bool) (l : List Nat) : List Nat :=
   (l.foldl (fun rp x => bubble lt x rp) []).reverse
 
+/-- byte limit the `Pop` callback hands to `consume` -/
+def visitLimit (s : P7540) (openParent : Bool) : Int := if openParent then s.limit else maxInt32
+
+/-- update of `writeThrottleLimit` after a successful write -/
+def afterVisit (s : P7540) (openParent : Bool) : P7540 :=
+  if openParent then
+    { s with limit := if s.limit + 1024 > maxInt32 then maxInt32 else s.limit + 1024 }
+  else if s.throttle then { s with limit := 1024 } else s
+
 /-- the callback of `Pop` on node `n` -/
 def visit (e : Env) (s : P7540) (n : Nat) (openParent : Bool) : Env × P7540 × Option Frame :=
-  let limit := if openParent then s.limit else maxInt32
-  match (s.node n).q.consume e limit with
+  match (s.node n).q.consume e (s.visitLimit openParent) with
   | (_, _, none) => (e, s, none)
   | (e', q, some f) =>
-    let s := s.modNode n fun nn => { nn with q := q }
-    let s := s.addBytes n f.dataSize
-    let s := if openParent then
-        { s with limit := if s.limit + 1024 > maxInt32 then maxInt32 else s.limit + 1024 }
-      else if s.throttle then { s with limit := 1024 } else s
-    (e', s, some f)
+    (e', afterVisit ((s.modNode n fun nn => { nn with q := q }).addBytes n f.dataSize) openParent, some f)
 
 /-- `walkReadyInOrder` with the `Pop` callback; `fuel` bounds the depth of the tree -/
 def walk : Nat → Env → P7540 → Nat → Bool → Env × P7540 × Option Frame
